@@ -40,6 +40,7 @@ class StandardMonitors:
         self.max_problems = max_problems
         self.trace = []             # C15: (iteration, condition, recomputed)
         self.stop_at_iteration = stop_at_iteration
+        self.stop_after_mid_iteration_training = None   # n: die right after the n-th training that is triggered while a replacement point is being drawn
         self._patched = []
         self.handed_out = set()
         self.pool_sizes = []
@@ -125,6 +126,24 @@ class StandardMonitors:
                 return r
             return finalise
 
+        def train_factory(orig):
+            def train_proposal(ns, *a, **k):
+                mid = ns.live_points is not None and len(ns.nested_samples) != len(ns.insertion_indices)
+                n_before = getattr(getattr(ns, "proposal", None), "training_count", None)
+                r = orig(ns, *a, **k)
+                trained = getattr(getattr(ns, "proposal", None), "training_count", None) != n_before
+                if mid and trained:
+                    mon.bump("trainings_while_a_replacement_is_being_drawn")
+                    if mon.stop_after_mid_iteration_training is not None:
+                        mon.stop_after_mid_iteration_training -= 1
+                        if mon.stop_after_mid_iteration_training <= 0:
+                            mon.stop_after_mid_iteration_training = None
+                            # the process "dies" here: after the training (and whatever checkpoint it wrote) and before the replacement point is inserted
+                            raise StopRun(ns.iteration)
+                return r
+            return train_proposal
+
+        self._patch(NestedSampler, "train_proposal", train_factory)
         self._patch(NestedSampler, "consume_sample", consume_factory)
         self._patch(NestedSampler, "populate_live_points", populate_live_factory)
         self._patch(NestedSampler, "finalise", finalise_factory)
